@@ -304,6 +304,13 @@ impl<T: Clone> SentRotateGuard<'_, T> {
     ///
     /// [`Largest Acknowleged`]: https://www.rfc-editor.org/rfc/rfc9000.html#name-ack-frames
     pub fn update_largest(&mut self, ack_frame: &AckFrame) -> Result<(), QuicError> {
+        if !ack_frame.is_well_formed() {
+            return Err(QuicError::new(
+                ErrorKind::FrameEncoding,
+                ack_frame.frame_type().into(),
+                "ack frame acknowledges negative packet numbers",
+            ));
+        }
         // `sent_packets.largest()` is the next packet number to be used, not the last one sent
         if ack_frame.largest() >= self.inner.sent_packets.largest() {
             return Err(QuicError::new(
